@@ -378,6 +378,32 @@ def alias_pair_list():
     return [(pid, cid, k) for (pid, cid, k) in pair_list(True, per_op=2) if mz.BY_ID[pid].op in ALIAS_PRODUCERS]
 
 
+def overridable_operand_pair_list(representative):
+    """producer->consumer pairs whose producer takes a pooled (non-primary) operand and whose consumer observes the
+    producer's output SHAPE (Shape / Size) or passes it on (Identity): with the operand an overridable initializer its
+    default must not leak into shape inference (seeded C04e: Reshape(x, shp) -> Shape folded to the default of shp)."""
+    out = []
+    for (pid, cid, k) in pair_list(representative):
+        p, c = mz.BY_ID[pid], mz.BY_ID[cid]
+        if p.pooled and c.op in ("Shape", "Size", "Identity") and not c.pooled:
+            out.append((pid, cid, k))
+    return out
+
+
+def make_drv_pair_ovr(pairs, values):
+    def drv(ch):
+        pid, cid, k = ch.all("pair", pairs)
+        p, c = mz.BY_ID[pid], mz.BY_ID[cid]
+        xi = ch.choose("xshape", [0, 1] if len(mz.X_SHAPES[k]) > 1 else [0])
+        steps = [{"cfg": pid, "ops": _operand_choices(ch, p, "p", srcs=["init_in"], values=values)},
+                 {"cfg": cid, "ops": []}]
+        outs = ch.choose("outs", ["all", "last"])
+        it = dict(fam="pair_overridable_operand", steps=steps, x=[k, xi], xsrc="in", outs=outs)
+        it.update(dict(wrap=list(WRAPM[0]), opset=18, api="optimize", opts={}, entry="proto", vi=False))
+        return it
+    return drv
+
+
 def rule_adjacent():
     """(producer op, consumer op) adjacent in a live rule pattern, plus registry x registry op pairs."""
     live = mz.live_alphabet()
@@ -552,9 +578,14 @@ def item_spec(item):
                 s = mode
             ops.append([vi, s])
         steps.append({"cfg": st["cfg"], "ops": ops})
-    return mz.chain_spec(steps, xsel=tuple(item["x"]), xsrc=item.get("xsrc", "in"), wrap=wrap, wsrc=wsrc,
+    spec = mz.chain_spec(steps, xsel=tuple(item["x"]), xsrc=item.get("xsrc", "in"), wrap=wrap, wsrc=wsrc,
                          opset=item.get("opset", 18), outs=item.get("outs", "last"), keep_vi=item.get("vi", False),
                          cform=item.get("cform", "value"), ref_step=item.get("ref_step"))
+    if item.get("fam") == "pair_overridable_operand":
+        # the output shapes depend on an operand the caller may override: a static declared output shape (which
+        # shape inference derives from the DEFAULT) would contradict the override, so every dim is declared symbolic
+        spec["sym_out_dims"] = True
+    return spec
 
 
 def item_label(item):
@@ -680,6 +711,7 @@ def plan_c03(tier, with_corpus=True):
         # consumer through an alias-like producer: a seeded defect folded Add(Identity(c), Identity(c))
         items += _run(make_drv_pair(alias_pair_list(), False, "pair_alias_of_overridable", xsrc="init_in"), 0, fam,
                       "pair_alias_of_overridable")
+        items += _run(make_drv_pair_ovr(overridable_operand_pair_list(True), False), 0, fam, "pair_overridable_operand")
         items += _run(make_drv_pair(rulepair_list(False), True, "rulepair", consumer_srcs=["const"]), 1, fam, "rulepair")
         items += _run(make_drv_shape3(shape3_list(True), False), 0, fam, "shape3")
         items += _run(drv_tmpl, 0, fam, "tmpl")
@@ -692,6 +724,7 @@ def plan_c03(tier, with_corpus=True):
         items += _run(drv_single_folded, 0, fam, "single_folded")
         items += _run(make_drv_single(lean=True), 2, fam, "single_pairs_of_deviations")
         items += _run(make_drv_pair(pair_list(False), False), 1, fam, "pair")
+        items += _run(make_drv_pair_ovr(overridable_operand_pair_list(False), True), 1, fam, "pair_overridable_operand")
         items += _run(make_drv_pair(rulepair_list(True), True, "rulepair"), 1, fam, "rulepair")
         items += _run(make_drv_shape3(shape3_list(False), True), 1, fam, "shape3")
         items += _run(drv_tmpl, 1, fam, "tmpl")
